@@ -47,6 +47,58 @@ func points(n int, seed int64, salt string) []int {
 // size of the fault-free output (sticky / failing once). For the families
 // other than "long" the WriteString flavour gets dead, once and cap only.
 func (u *Unit) plans(seed int64) []Plan {
+	ps := u.basePlans(seed)
+	return append(ps, u.variations(ps)...)
+}
+
+// variations adds the two other dimensions of a failing write to the base
+// plans (private sentinel error, default count): the VALUE of the error
+// (errIDs) and, for dead/once, how much the failing call accepts (nModes).
+// Every base plan gets one variation, the values rotating with the plan's
+// index so that every (error value, count) pair meets every site kind and many
+// positions; the built-in family gets the full cross product.
+func (u *Unit) variations(base []Plan) []Plan {
+	h := fnv.New32a()
+	h.Write([]byte(u.ID))
+	off := int(h.Sum32() % 4096)
+	names := []string{""}
+	for _, e := range errIDs {
+		names = append(names, e.Name)
+	}
+	var vs []Plan
+	for i, b := range base {
+		callPlan := b.Kind == "dead" || b.Kind == "once"
+		if u.Family == "builtin" {
+			for _, e := range names {
+				for _, n := range nModes {
+					if (n != "" && !callPlan) || (e == "" && n == "") {
+						continue
+					}
+					v := b
+					v.Err, v.N = e, n
+					vs = append(vs, v)
+				}
+			}
+			continue
+		}
+		if u.long && !callPlan && i%4 != 0 {
+			continue // long outputs: a quarter of the capacities get a variation
+		}
+		j := off + i
+		v := b
+		v.Err = names[j%len(names)]
+		if callPlan {
+			v.N = nModes[j%len(nModes)]
+		}
+		if v.Err == "" && v.N == "" {
+			v.Err = names[1+j%len(errIDs)]
+		}
+		vs = append(vs, v)
+	}
+	return vs
+}
+
+func (u *Unit) basePlans(seed int64) []Plan {
 	var ps []Plan
 	for _, sw := range []bool{false, true} {
 		for _, k := range points(len(u.writesOf(sw)), seed, u.ID+"#w") {
@@ -75,8 +127,9 @@ func (u *Unit) plans(seed int64) []Plan {
 func (u *Unit) longCaps(sw bool, seed int64) []int {
 	n := len(u.ffOut)
 	set := map[int]bool{}
+	radius := 2
 	add := func(b int) {
-		for d := -2; d <= 2; d++ {
+		for d := -radius; d <= radius; d++ {
 			if b+d >= 0 && b+d < n {
 				set[b+d] = true
 			}
@@ -85,7 +138,9 @@ func (u *Unit) longCaps(sw bool, seed int64) []int {
 	add(0)
 	add(n - 1)
 	for _, w := range u.writesOf(sw) {
+		radius = 1
 		add(w.Off)
+		radius = 2
 		if w.Len <= 512 {
 			continue
 		}
@@ -261,7 +316,7 @@ type ReplayCase struct {
 	Prog          *core.Program `json:"prog,omitempty"`
 }
 
-const planDoc = "sw: the writer also has a WriteString method; dead k: every Write from call k on returns (0, err); once k: only call k does; cap b: b bytes are accepted in total, the Write crossing b returns (short, err), later non-empty Writes (0, err); caponce b: as cap but the writer recovers after the short write"
+const planDoc = "err: the error value the failing calls return (default: a private sentinel); n (dead/once): the failing call accepts nothing (default), half or all of its bytes; sw: the writer also has a WriteString method; dead k: every Write from call k on returns (0, err); once k: only call k does; cap b: b bytes are accepted in total, the Write crossing b returns (short, err), later non-empty Writes (0, err); caponce b: as cap but the writer recovers after the short write"
 
 func (u *Unit) replay(o *Outcome) *ReplayCase {
 	rc := &ReplayCase{Unit: u.UnitSpec, Plan: o.Plan, PlanDoc: planDoc, Site: o.Site, Prog: u.Prog,
@@ -293,14 +348,15 @@ type capObs struct {
 
 // unitResult is what the enumeration of one unit produced.
 type unitResult struct {
-	renders    int
-	reached    int // fault points at which the writer did fail
-	notReached int
-	bySite     map[string]int // fault points by site kind of the injected fault
-	byKind     map[string]int
-	violations []*Outcome // all violating outcomes (Accepted dropped beyond keep)
-	healthy    int        // renders into a healthy writer interleaved with the faulted ones
-	obs        []capObs
+	renders                           int
+	reached                           int // fault points at which the writer did fail
+	notReached                        int
+	bySite                            map[string]int // fault points by site kind of the injected fault
+	byKind                            map[string]int
+	violations                        []*Outcome // all violating outcomes (Accepted dropped beyond keep)
+	healthy                           int        // renders into a healthy writer interleaved with the faulted ones
+	shortNilRuns, shortNilReturnedNil int        // contract-breaking writer, observed only
+	obs                               []capObs
 }
 
 // enumerate runs every fault plan of the unit (sequentially: one goroutine
@@ -336,6 +392,7 @@ func (u *Unit) enumerate(seed int64, reached func(Plan)) *unitResult {
 		res.violations = append(res.violations, o)
 	}
 	var hist []Plan
+	baseBad := map[Plan]bool{}
 	healthyCheck := func() {
 		ok, out, err := u.healthy()
 		res.healthy++
@@ -366,6 +423,25 @@ func (u *Unit) enumerate(seed int64, reached func(Plan)) *unitResult {
 			res.obs = append(res.obs, capObs{B: p.K, Err: o.Err != nil, Acc: string(o.Accepted),
 				M2Bad: o.Feature != "", Feature: o.Feature, Site: u.siteAt(false, u.callAtOffset(p.K))})
 		}
+		if p == p.base() {
+			baseBad[p] = o.Feature != ""
+		} else if o.Feature != "" && !o.NeedsFF && !o.Panicked && !baseBad[p.base()] {
+			// the same fault point is fine with the sentinel error and the
+			// default count: name the dimension(s) that make it fail
+			suffix := ""
+			pe, pn := p.base(), p.base()
+			pe.Err, pn.N = p.Err, p.N
+			res.renders += 2
+			switch {
+			case p.Err != "" && u.run(pe).Feature != "":
+				suffix = ",err=" + p.Err
+			case p.N != "" && u.run(pn).Feature != "":
+				suffix = ",n=" + p.N
+			default:
+				suffix = ",err=" + p.Err + ",n=" + p.N
+			}
+			o.Feature += suffix
+		}
 		if o.Feature != "" {
 			if o.NeedsFF {
 				o.History = append([]Plan{}, hist...)
@@ -381,6 +457,18 @@ func (u *Unit) enumerate(seed int64, reached func(Plan)) *unitResult {
 		}
 	}
 	healthyCheck()
+	// for the record only, never judged: a writer that breaks io.Writer's
+	// contract by returning a short count with a nil error
+	if u.Family == "builtin" {
+		for b := 0; b < len(u.ffOut); b++ {
+			w := newFaultWriter(Plan{Kind: "shortnil", K: b}, len(u.ffOut))
+			err, _ := u.render(w)
+			res.shortNilRuns++
+			if err == nil {
+				res.shortNilReturnedNil++
+			}
+		}
+	}
 	return res
 }
 
